@@ -187,11 +187,11 @@ Proof.
   rewrite is_branch_code_spec, Hb.
   destruct branch_consts as (-> & -> & -> & -> & ->).
   destruct (branch_modes m Hb) as (Hzp & Hab & o & Hrel). rewrite Hrel.
-  assert (E1 : (two64 <=? pc + 2) = false) by (unfold two64; lia). rewrite E1.
+  assert (E1 : (two64 <=? pc + 2) = false) by (unfold two64; lia). rewrite E1. cbn [andb].
   assert (E2 : usize_as_i64 (pc + 2) = pc + 2) by (unfold usize_as_i64, i64_max; destruct (pc + 2 <=? _) eqn:?; lia).
   rewrite E2.
   set (d := target - (pc + 2)).
-  assert (E3 : in_i64 d = true) by (unfold in_i64, i64_min, i64_max, d; lia). rewrite E3. cbn [negb].
+  assert (E3 : in_i64 d = true) by (unfold in_i64, i64_min, i64_max, d; lia). rewrite E3. cbn [negb andb].
   destruct ((-128 <=? d) && (d <=? 127)) eqn:R.
   - pose proof (get_opcode_bytes_cands m FAbs (if d <? 0 then d + 256 else d)) as G. cbn [form_operand] in G.
     rewrite G, table_is_isa. cbn [spec_cands]. rewrite Hzp, Hab, Hrel. cbn [c app select].
@@ -205,10 +205,24 @@ Proof.
   - destruct (target =? 0) eqn:Z0; [lia | reflexivity].
 Qed.
 
-(* a negative branch operand -1 / -2 panics in the pass that has no current pc (usize overflow of `target as usize + 2`) *)
-Lemma branch_negative_target_panics :
-  emit_instruction Bne FAbs (-1) None = ([], Some InstrPanic) /\ emit_instruction Bne FAbs (-2) None = ([], Some InstrPanic).
+(* a negative branch operand -1 / -2 in the pass that has no current pc: `target as usize + 2` wraps around (it panicked
+   before the program-counter range fix), the pretended offset is -2 *)
+Lemma branch_negative_target_wraps :
+  emit_instruction Bne FAbs (-1) None = ([208%N; 254%N], None) /\ emit_instruction Bne FAbs (-2) None = ([208%N; 254%N], None).
 Proof. vm_compute. split; reflexivity. Qed.
+
+(* the branch arm never panics, whatever the operand and the current pc *)
+Lemma emit_instruction_no_panic m f v cur : 0 <= match cur with Some p => p | None => 0 end < two64 ->
+  snd (emit_instruction m f v cur) <> Some InstrPanic.
+Proof.
+  intros Hc. unfold emit_instruction.
+  destruct (form_operand f) as [[a sfx]|]; destruct (is_branch_code m);
+    change branch_add_wraps with true; change branch_sub_wraps with true; rewrite ?andb_false_r; cbv zeta;
+    repeat match goal with
+           | |- context [if ?b then _ else _] => destruct b
+           | |- context [match ?x with Some _ => _ | None => _ end] => destruct x
+           end; cbn [snd]; discriminate.
+Qed.
 
 (* the escape: a branch whose operand evaluates to 0 is never rejected *)
 Lemma branch_to_zero_refuted :
